@@ -664,6 +664,18 @@ pub fn run(tier: Tier, seed: u64, replay: Option<String>) -> i32 {
             ("white space only".into(), " \n\t \r\n".into()),
             ("comment only".into(), "-- nothing here\n/* nor here */\n".into()),
         ];
+        // notation the backends do not support has to be *reported* too (rasn: MACRO, REAL and
+        // VideotexString types; TypeScript: MACRO), wherever the definition stands in its module
+        for (k, unsupported) in ["ZZ-NOTE MACRO ::= BEGIN TYPE NOTATION ::= \"P\" VALUE NOTATION ::= value(VALUE INTEGER) END", "AA-NOTE MACRO ::= BEGIN TYPE NOTATION ::= \"P\" VALUE NOTATION ::= value(VALUE INTEGER) END", "Mm-Real ::= REAL", "Mm-Vtx ::= VideotexString"].iter().enumerate() {
+            for order in 0..2 {
+                let keep = "Keep-A ::= INTEGER\nKeep-Z ::= SEQUENCE { a BOOLEAN }";
+                let body = if order == 0 { format!("{unsupported}\n{keep}") } else { format!("{keep}\n{unsupported}") };
+                inputs.push((if k < 2 { "unsupported notation (both backends)".into() } else { "unsupported notation (rasn backend)".into() }, format!("Un-Mod DEFINITIONS AUTOMATIC TAGS ::= BEGIN\n{body}\nEND\n")));
+                if k < 2 && order == 0 {
+                    inputs.push(("unsupported notation (both backends)".into(), format!("Un-Only DEFINITIONS ::= BEGIN\n{unsupported}\nEND\n")));
+                }
+            }
+        }
         for s in &streams {
             let text = print(&gen_set(s, &gcfg));
             let mut src = Src::new(&s[s.len() / 2..]);
@@ -686,6 +698,9 @@ pub fn run(tier: Tier, seed: u64, replay: Option<String>) -> i32 {
             .map(|(kind, text)| {
                 let mut bad = None;
                 for ts in [false, true] {
+                    if ts && kind.ends_with("(rasn backend)") {
+                        continue;
+                    }
                     let o = if ts { crate::comp::compile_ts(&[text.clone()]) } else { crate::comp::compile_rasn1(text, &crate::comp::Cfg::default()) };
                     if let crate::comp::Outcome::Ok(c) = o {
                         if c.warnings.is_empty() {
@@ -707,7 +722,7 @@ pub fn run(tier: Tier, seed: u64, replay: Option<String>) -> i32 {
                     reported += 1;
                     ctx.fail(Failure {
                         finding: None,
-                        what: format!("input that is cut off ({kind}) is not reported: {d}"),
+                        what: format!("input that has to be reported ({kind}) is not: {d}"),
                         replay: json!({"kind": "c08-cut", "cut": kind, "sources": [{"name": "input.asn", "text": text}]}),
                     });
                 }
